@@ -42,9 +42,9 @@ PROPS = ["C04_dim_is_shape", "C04_xls_sheet_dim", "C04_bytes_stream", "C04_metad
          "C04_repair_surrogates_utf8able", "C04_repair_surrogates_identity",
          "C04_props_unchanged_ooxml", "C04_props_unchanged_odf", "C04_props_unchanged_epub_partial",
          "C04_props_unchanged_epub_refuted", "C04_props_unchanged_html_meta"]
-INST = ["C04_odf_guarded", "C04_odf_overflow_witness", "C04_odf_overflow_unguarded", "C04_rtf_repaired",
-        "C04_rtf_tables_wf", "C04_rtf_surrogate_witness", "C04_rtf_surrogate_unrepaired", "C04_path_guarded",
+INST = ["C04_odf_overflow_unguarded", "C04_rtf_tables_wf", "C04_rtf_surrogate_unrepaired",
         "C04_rtf_ctypes_wf", "C04_image_decls", "C04_archive_member_path"]
+INST_FIXED = ["C04_odf_guarded", "C04_odf_overflow_witness", "C04_rtf_repaired", "C04_rtf_surrogate_witness", "C04_path_guarded"]
 
 Zs = lambda n: f"({n})%Z"
 pair = lambda *a: "(" + ", ".join(a) + ")"
@@ -384,7 +384,9 @@ def run_paths(ctx, tb):
             want_fp = fs[sp][1] if fs[sp][0] else full
             want_dp = fs[spar][1] if fs[spar][0] else par
             if got != (name, ext, want_fp, want_dp):
-                ctx.finding("path-metadata-mismatch:" + repr(p)[:60],
+                wantt = (name, ext, want_fp, want_dp)
+                which = ",".join(n_ for n_, g_, w_ in zip(("filename", "file_extension", "file_path", "folder_path"), got, wantt) if g_ != w_)
+                ctx.finding("path-metadata-mismatch:" + which,
                             f"metadata of path {p!r:.100} is {got!r:.300}, derived from the path: {(name, ext, want_fp, want_dp)!r:.300}",
                             {"path": p, "got": got, "want": (name, ext, want_fp, want_dp)})
         fsl = coq_list([pair(cstr(q), pair(coq_opt(e, coq_bool), cstr(r))) for q, (e, r) in fs.items()])
@@ -426,7 +428,7 @@ def run_paths(ctx, tb):
 # ------------------------------------------------------------------------------------------------ RTF decoder
 RTF_TOKENS = ["\\u55357?", "\\u56832?", "\\u-10179?", "\\u-8704?", "\\u8364?", "\\u65", "\\u65?", "\\u", "\\u-", "\\u-?", "\\ul ", "\\uc1 ",
               "\\u0", "\\u65536?", "\\u99999999999", "\\'e9", "\\'E9", "\\'zz", "\\' 5", "\\'5 ", "\\'-0", "\\'-5", "\\'+5", "\\'", "\\'a", "\\'0x",
-              "\\'\u0663a", "\\par ", "\\par", "\\line ", "\\page ", "\\page", "\\sbkpage ", "\\page1 ", "\\pagebb ", "\\par-3 ", "\\tab ",
+              "\\'\u0663a", "\\'a\x1c", "\\'\x1fa", "\\'a\x0b", "\\'a\x85", "\\'\xa0a", "\\'a\x7f", "\\par ", "\\par", "\\line ", "\\page ", "\\page", "\\sbkpage ", "\\page1 ", "\\pagebb ", "\\par-3 ", "\\tab ",
               "\\bullet ", "\\emdash", "\\endash ", "\\lquote ", "\\rdblquote ", "\\enspace ", "\\qmspace ", "\\fs24 ", "\\b0", "\\b ",
               "\\f0\\fs20 ", "\\~", "\\_", "\\-", "\\\\", "\\{", "\\}", "\\", "{", "}", "{\\*\\generator Riched20;}", "{\\*\\x{\\y z}w}v",
               "{\\fonttbl{\\f0 Arial;}}", "{\\pict\\pngblip 0102}", "{\\info{\\title T}}", "{\\header H}", "{\\object x}", "{\\fldinst Z}",
@@ -511,6 +513,23 @@ def run_rtf(ctx, tb):
         "not-rtf-latin1": b"\xff\xfe plain \xed\xa0\xbd",
         "controls": b"{\\rtf1 a\x00b\x01c\x7f\\par \\u0? \\u1? \\u65535? \\u65534?}",
     }
+    # RTF info group: stored title/author/subject/keywords reach RtfMetadata unchanged
+    info_vals = [("Plain Title", "Plain Title", "plain"), ("J\\'fcrgen", "J\u00fcrgen", "hex-escape"),
+                 ("Pr\\u8364?is", "Pr\u20acis", "unicode-escape"), ("  padded  ", "padded", "padded")]
+    for enc, want, tag in info_vals:
+        data = ("{\\rtf1\\ansi{\\info{\\title %s}{\\author %s}{\\subject %s}{\\keywords %s}}\\pard x\\par}" % (enc, enc, enc, enc)).encode("ascii")
+        try:
+            md = next(iter(s2t.read_rtf(io.BytesIO(data), path=None))).get_metadata()
+        except Exception as e:  # noqa
+            ctx.finding(f"rtf-info-raises:{tag}", f"read_rtf raises on an info group ({tag}): {e!r:.160}", {"rtf_bytes": data})
+            continue
+        ctx.case(("rtf-info", tag), True, kind="props:read_rtf")
+        for fld in ("title", "author", "subject", "keywords"):
+            got = getattr(md, fld)
+            if got != want:
+                key = "rtf-info-unicode-escape-dropped" if tag == "unicode-escape" else f"props-changed:read_rtf:{tag}"
+                ctx.finding(key, f"read_rtf: info-group {fld} written as {enc!r} (i.e. {want!r}) is reported as {got!r}",
+                            {"rtf_bytes": data, "field": fld, "got": got, "want": want})
     for key, data in docs.items():
         try:
             for r in s2t.read_rtf(io.BytesIO(data), path=None):
@@ -545,6 +564,10 @@ def exercise(ctx, r, origin, path_arg, replay, utf8_key=None, check_size=True, s
 
     def bad(kind, acc, detail):
         key = utf8_key if (kind == "not-utf8" and utf8_key) else f"{kind}:{acc}"
+        if kind == "raises" and acc == "OpenDocumentImage.get_metadata" and "OverflowError" in detail:
+            key = "odf-length-overflow"
+        if kind == "not-utf8" and cls == "RtfContent":
+            key = "rtf-unicode-escape-lone-surrogate"
         rp = dict(replay)
         rp.update({"origin": origin, "accessor": acc, "detail": detail})
         ctx.finding(key, f"{acc} on a result of {origin}: {kind} — {detail}"[:400], rp)
@@ -582,6 +605,14 @@ def exercise(ctx, r, origin, path_arg, replay, utf8_key=None, check_size=True, s
                 if b.tell() != 0:
                     bad("stream-not-at-0", acc, f"tell() = {b.tell()}")
                 n = len(b.read())
+                # an earlier reader left the stream at its end: the next get_bytes() must again be at 0 with the same bytes
+                ok2, b2 = call(img, "get_bytes")
+                if ok2 and isinstance(b2, io.BytesIO):
+                    if b2.tell() != 0:
+                        bad("stream-not-at-0", acc, f"second get_bytes() after a full read: tell() = {b2.tell()}")
+                    elif len(b2.read()) != n:
+                        bad("stream-content-changed", acc, "second get_bytes() returns different bytes")
+                    b2.seek(0)
                 b.seek(0)
                 size = getattr(img, "size_bytes", None)
                 if check_size and size is not None and size != n:
@@ -792,6 +823,33 @@ def run_hostile_docs(ctx):
             for r in results:
                 exercise(ctx, r, f"hostile-odf:{Path(rel).suffix}:{tag}", "hostile/" + Path(rel).name,
                          {"base_file": rel, "svg_width_height": val, "call": reader.__name__}, check_size=True)
+    # an embedded image whose compressed data is damaged (the container still opens): results must keep the contract
+    import struct
+    for rel, reader in (("modern_ms/GKIM_Skills_Framework_-_static.docx", s2t.read_docx), ("open_office/image_extraction.odt", s2t.read_odt),
+                        ("open_office/apache_oo/aoo_document.odt", s2t.read_odt), ("open_office/image_extraction.odp", s2t.read_odp),
+                        ("open_office/image_extraction.ods", s2t.read_ods), ("modern_ms/pptx_formula_image.pptx", s2t.read_pptx),
+                        ("modern_ms/image_in_excel.xlsx", s2t.read_xlsx), ("epub/sample.epub", s2t.read_epub)):
+        src = res / rel
+        if not src.exists():
+            continue
+        raw = bytearray(src.read_bytes())
+        with zipfile.ZipFile(src) as z:
+            members = [i for i in z.infolist() if re.search(r"\.(png|jpe?g|gif|emf|wmf|bmp|svg)$", i.filename, re.I) and i.compress_size > 40]
+        for it in members[:2]:
+            nl, el = struct.unpack_from("<HH", raw, it.header_offset + 26)
+            start = it.header_offset + 30 + nl + el
+            for k in range(8, min(it.compress_size, 40)):
+                raw[start + k] ^= 0x5A
+        data = bytes(raw)
+        try:
+            results = list(reader(io.BytesIO(data), path=None))
+        except Exception:  # noqa
+            ctx.count("hostile:rejected")
+            continue
+        for r in results:
+            exercise(ctx, r, f"hostile-damaged-image:{Path(rel).suffix}", None,
+                     {"base_file": rel, "damage": "bytes 8..40 of the compressed data of the first two image members xor 0x5A",
+                      "call": reader.__name__}, check_size=True)
     # stored document properties reach the metadata object unchanged (end to end through the XML parser)
     from xml.sax.saxutils import escape
     vocab = [("Quarterly Report", "plain"), ("  padded  ", "padded"), ("\u00dcn\u00efc\u00f8de \u4e2d\u6587 \U0001f600", "unicode"),
@@ -1068,6 +1126,9 @@ def run_instances(ctx, tb):
         lows[ct] = ct.lower()
         try:
             b = img.get_bytes()
+            if b.tell() != 0:
+                ctx.finding(f"stream-not-at-0:{cname}.get_bytes", f"{cname}.get_bytes() returns a stream at position {b.tell()} "
+                            "(the stored stream had been read before)", {"class": cname, "kwargs": repr(kw)[:800]})
             gb = pair(str(b.tell()), nlist(b.read()))
         except Exception as e:  # noqa
             ctx.finding(f"raises:{cname}.get_bytes", f"{cname}.get_bytes raises {e!r:.120} on a type-directed instance", {"kwargs": repr(kw)[:800]})
@@ -1228,6 +1289,7 @@ def run(ctx):
     _t0 = _t.time()
     ctx.prove("C04/Props.v", ["C04/Proofs.vo", "C04/ProofsPath.vo", "C04/ProofsRtf.vo", "C04/ProofsMeta.vo"], expected=PROPS)
     ctx.prove("C04/Inst.v", ["Gen/C04Tables.vo", "C04/Corr.vo", "C04/ProofsRtf.vo"], expected=INST)
+    ctx.prove("C04/InstFixed.v", ["C04/Inst.vo"], expected=INST_FIXED)
     ctx.extra["prove_s"] = round(_t.time() - _t0, 1)
     import time
     stage = {}
